@@ -128,4 +128,65 @@ def run(tier: str, seed: int, reg: Any, jobs: int = 16) -> list:
                     fails2.append({"inputs": {"family": fam, "area": cls.__name__}, "detail": f"{type(e).__name__}: {str(e)[:150]}", "obligation": "area-roundtrip"})
     out.append({"name": "PFR CMPA/CFPA of every family: size, parse/export identity, binary-config-binary with seeded values", "function": "spsdk.pfr.pfr",
                 "method": "every family of the live database", "bound": f"{n} areas", "cases": max(n, 1), "exhaustive": True, "label": "bounded", "failures": fails2[:12]})
+    out.append(_xmcd())
     return out
+
+
+def _xmcd() -> dict:
+    """XMCD blocks of every (family, memory, configuration type): the header word, decoded by hand, announces exactly the exported length -
+    for the generated template, for a configuration whose size field is wrong, and (where the block has an option-size field) for the
+    one-word variant with a stale or omitted size; the area's verifier and parser accept the export and parse->export is the identity."""
+    import copy
+    import struct
+
+    import yaml
+
+    from spsdk.image.xmcd.xmcd import XMCD
+
+    fails: list = []
+    n = 0
+
+    def check(family: str, label: str, cfg: dict) -> Any:
+        nonlocal n
+        n += 1
+        x = XMCD.load_from_config(copy.deepcopy(cfg))
+        b = x.export()
+        (word,) = struct.unpack_from("<I", b, 0)
+        problems = []
+        if word >> 28 != 0xC:
+            problems.append("tag")
+        if word & 0xFFF != len(b):
+            problems.append(f"header announces {word & 0xFFF} bytes but the exported block has {len(b)}")
+        if x.verify().has_errors:
+            problems.append("the area's own verifier rejects the exported object")
+        p2 = XMCD.parse(b, family=family)
+        if p2.export() != b:
+            problems.append("parse -> export is not the identity")
+        if problems and len(fails) < 5:
+            fails.append({"inputs": {"family": family, "mem_type": cfg.get("mem_type"), "config_type": cfg.get("config_type"), "scenario": label},
+                          "detail": "; ".join(problems), "obligation": "xmcd-header-announces-the-exported-length"})
+        return b
+
+    for family in XMCD.get_supported_families():
+        for mem_type in XMCD.get_supported_memory_types(family):
+            for cfg_type in XMCD.get_supported_configuration_types(family, mem_type):
+                try:
+                    base = yaml.safe_load(XMCD.generate_config_template(family, mem_type, cfg_type))
+                    ref = check(family, "template", base)
+                    cfg = copy.deepcopy(base)
+                    cfg["xmcd_settings"]["header"]["configurationBlockSize"] = len(ref) + 4
+                    check(family, "wrong size in the configuration", cfg)
+                    if "optionSize" in base["xmcd_settings"].get("configOption0", {}):
+                        cfg = copy.deepcopy(base)
+                        cfg["xmcd_settings"]["configOption0"]["optionSize"] = 0
+                        check(family, "optionSize=0 with the template's (stale) size", cfg)
+                        cfg["xmcd_settings"].pop("configOption1", None)
+                        cfg["xmcd_settings"]["header"].pop("configurationBlockSize", None)
+                        check(family, "optionSize=0 with the size omitted", cfg)
+                except Exception as e:  # pylint: disable=broad-except
+                    if len(fails) < 5:
+                        fails.append({"inputs": {"family": family, "mem_type": str(mem_type), "config_type": str(cfg_type)}, "detail": f"{type(e).__name__}: {e}",
+                                      "obligation": "xmcd-header-announces-the-exported-length"})
+    return {"name": "XMCD header size field against the exported block", "function": "spsdk.image.xmcd.xmcd:XMCD.load_from_config/export/parse",
+            "method": "every (family, memory type, configuration type) of the live database; template, wrong size, stale size, omitted size", "bound": f"{n} configurations",
+            "cases": max(n, 1), "exhaustive": True, "label": "bounded", "failures": fails}
